@@ -181,6 +181,12 @@ def llgrEntry (peer : List (Family × Nat × Nat)) (e : Family × Nat × Nat) : 
     let stale := if p.2.2 > 0 then p.2.2 else e.2.2
     if stale = 0 then none else some (p.1, stale)
 
+/-- `local_families[..i].iter().any(|(f, _)| f == local_f)` → skip: a family listed twice counts
+    once, by its first tuple (`seen` = the families of the tuples already walked) -/
+def firstTuples : List (Family × Nat × Nat) → List Family → List (Family × Nat × Nat)
+  | [], _ => []
+  | e :: t, seen => if seen.contains e.1 then firstTuples t seen else e :: firstTuples t (e.1 :: seen)
+
 def negotiateLlgr (l r : List Cap) : Option (List (Family × Nat)) :=
   match firstLlgr l with
   | none => none
@@ -188,7 +194,7 @@ def negotiateLlgr (l r : List Cap) : Option (List (Family × Nat)) :=
     match firstLlgr r with
     | none => none
     | some pf =>
-      let fams := lf.filterMap (llgrEntry pf)
+      let fams := (firstTuples lf []).filterMap (llgrEntry pf)
       if fams.isEmpty then none else some fams
 
 /-! ## IpNet::contains -/
